@@ -1,9 +1,9 @@
 package checks
 
 import (
-	webp "github.com/deepteams/webp"
 	"bytes"
 	"fmt"
+	webp "github.com/deepteams/webp"
 	"image"
 	"math/rand"
 	"time"
@@ -304,8 +304,12 @@ func animOne(c *ev.Ctx, cs ev.Case, lossyAlpha bool) {
 		}
 	}
 	rawTail := !lossyAlpha && cs.Idx%8 == 5
+	rawOnly := rawTail && cs.Idx%16 == 13 // no picture goes through the optimiser at all
 	if rawTail {
 		h.Inputs, h.Canvases, h.Durations, h.Steps = h.Inputs[:1], h.Canvases[:1], h.Durations[:1], h.Steps[:1]
+	}
+	if rawOnly {
+		h.Inputs, h.Canvases, h.Durations, h.Steps = nil, nil, nil, nil
 	}
 	cs.Desc = fmt.Sprintf("canvas %dx%d %v opts=%+v", h.CW, h.CH, h.Steps, h.Opts)
 	var buf bytes.Buffer
@@ -321,10 +325,17 @@ func animOne(c *ev.Ctx, cs ev.Case, lossyAlpha bool) {
 	// full-canvas key frame, so what the raw frames must look like on the canvas follows from the container's
 	// compositing rules alone (no mixing of raw frames with later optimised frames, whose meaning is not documented)
 	if rawTail {
-		model := []refanim.Frame{{X: 0, Y: 0, W: h.CW, H: h.CH, Pix: img.Tight(h.Canvases[0])}}
+		var model []refanim.Frame
+		if !rawOnly {
+			model = append(model, refanim.Frame{X: 0, Y: 0, W: h.CW, H: h.CH, Pix: img.Tight(h.Canvases[0])})
+		}
 		for k := 0; k < 1+r.Intn(3); k++ {
 			fw, fh := 1+r.Intn(h.CW), 1+r.Intn(h.CH)
 			ox, oy := 2*r.Intn((h.CW-fw)/2+1), 2*r.Intn((h.CH-fh)/2+1)
+			viaAddFrame := rawOnly && r.Intn(2) == 0 // AddFrame(NewBitstreamFrame(..)): at the origin, alpha-blended, not disposed
+			if viaAddFrame {
+				ox, oy = 0, 0
+			}
 			m := img.Gen(r, img.Pick(r, img.Classes), pickS(r, "opaque", "binary", "gradient", "blocks"), fw, fh)
 			lo := webp.DefaultOptions()
 			lo.Lossless, lo.Exact = true, true
@@ -335,6 +346,9 @@ func animOne(c *ev.Ctx, cs ev.Case, lossyAlpha bool) {
 				return
 			}
 			blend, dispose := r.Intn(2) == 0, r.Intn(3) == 0
+			if viaAddFrame {
+				blend, dispose = true, false
+			}
 			bm, dm := animation.BlendNone, animation.DisposeNone
 			if blend {
 				bm = animation.BlendAlpha
@@ -343,15 +357,24 @@ func animOne(c *ev.Ctx, cs ev.Case, lossyAlpha bool) {
 				dm = animation.DisposeBackground
 			}
 			dur := 1 + r.Intn(500)
-			if err := e.AddRawFrame(bs, time.Duration(dur)*time.Millisecond, ox, oy, bm, dm); err != nil {
-				c.Violate(cs, "addrawframe-error", nil, fmt.Sprintf("raw frame %d (%dx%d at %d,%d): %v", k, fw, fh, ox, oy, err), nil)
+			if viaAddFrame {
+				err = e.AddFrame(animation.NewBitstreamFrame(bs, fw, fh), time.Duration(dur)*time.Millisecond)
+			} else {
+				err = e.AddRawFrame(bs, time.Duration(dur)*time.Millisecond, ox, oy, bm, dm)
+			}
+			if err != nil {
+				c.Violate(cs, "addrawframe-error", nil, fmt.Sprintf("raw frame %d (%dx%d at %d,%d, via AddFrame=%v): %v", k, fw, fh, ox, oy, viaAddFrame, err), nil)
 				return
 			}
 			model = append(model, refanim.Frame{X: ox, Y: oy, W: fw, H: fh, Pix: img.Tight(m), Blend: blend, Dispose: dispose})
-			h.Steps = append(h.Steps, fmt.Sprintf("raw[%dx%d@%d,%d blend=%v dispose=%v]", fw, fh, ox, oy, blend, dispose))
+			h.Steps = append(h.Steps, fmt.Sprintf("raw[%dx%d@%d,%d blend=%v dispose=%v bitstreamframe=%v]", fw, fh, ox, oy, blend, dispose, viaAddFrame))
 			h.Durations = append(h.Durations, dur)
 		}
-		for _, cv := range refanim.Play(h.CW, h.CH, model)[1:] {
+		played := refanim.Play(h.CW, h.CH, model)
+		if !rawOnly {
+			played = played[1:]
+		}
+		for _, cv := range played {
 			h.Canvases = append(h.Canvases, &image.NRGBA{Pix: cv, Stride: h.CW * 4, Rect: image.Rect(0, 0, h.CW, h.CH)})
 		}
 		cs.Desc = fmt.Sprintf("canvas %dx%d %v opts=%+v", h.CW, h.CH, h.Steps, h.Opts)
@@ -417,6 +440,13 @@ func animOne(c *ev.Ctx, cs ev.Case, lossyAlpha bool) {
 	if err := an.DecodeFrames(); err != nil {
 		c.Violate(cs, "frame-decode-error", nil, err.Error(), rep())
 		return
+	}
+	var sumDur time.Duration
+	for i := range an.Frames {
+		sumDur += an.Frames[i].Duration
+	}
+	if td := an.TotalDuration(); td != sumDur {
+		c.Violate(cs, "total-duration", map[string]string{"via": "Animation.TotalDuration"}, fmt.Sprintf("TotalDuration() = %v, frames add up to %v", td, sumDur), rep())
 	}
 	dec, err := animation.NewAnimDecoder(an)
 	if err != nil {
